@@ -619,6 +619,15 @@ func (e *Engine) call(caller *frame, fn Value, args []Value, pos token.Pos) Valu
 		return e.callFunction(caller, fn.Fn, args, fn.Env, pos)
 	case *ssa.Builtin:
 		return e.callBuiltin(caller, fn, args)
+	case NoopFunc:
+		res := fn.sig.Results()
+		switch res.Len() {
+		case 0:
+			return nil
+		case 1:
+			return e.zero(res.At(0).Type())
+		}
+		return e.zero(res)
 	case Poison:
 		panic(e.unsupported("call of poisoned function value: " + fn.why))
 	}
